@@ -145,7 +145,7 @@ namespace Givaro {
 
         //! less or equal
         /// @param l rational to be compared to
-        giv_all_inlined int32_t operator <= (const Rational & l) const;
+        giv_all_inlined int32_t operator <= (const Integer & l) const;
         /** @overload Rational::operator<=(Rational) */
         giv_all_inlined int32_t operator <= (const int32_t l) const;
         /** @overload Rational::operator<=(Rational) */
